@@ -11,7 +11,8 @@ HEADER = "From Qib Require Import Hamil.HamilCheck.\nFrom Coq Require Import QAr
 
 # ------------------------------------------------------------------------------ lattices
 
-def make_lattice(spec):
+def make_lattice(spec, keep=None):
+    """keep: optional dict; receives every array handed to a lattice constructor (caller-owned)"""
     import qib
     from qib.lattice import ShiftedLatticeConvention as SLC
     L = qib.lattice
@@ -29,9 +30,12 @@ def make_lattice(spec):
     if cls == "FullyConnectedLattice":
         return L.FullyConnectedLattice(tuple(spec["shape"]))
     if cls == "CustomizedLattice":
-        return L.CustomizedLattice(tuple(spec["shape"]), np.array(spec["adj"], dtype=int))
+        a = np.array(spec["adj"], dtype=int)
+        if keep is not None:
+            keep["CustomizedLattice.adj"] = a
+        return L.CustomizedLattice(tuple(spec["shape"]), a)
     if cls == "LayeredLattice":
-        return L.LayeredLattice(make_lattice(spec["base"]), spec["nlayers"])
+        return L.LayeredLattice(make_lattice(spec["base"], keep), spec["nlayers"])
     raise ValueError(cls)
 
 
@@ -81,7 +85,9 @@ def catalogue(rng, thorough):
              {"cls": "FullyConnectedLattice", "shape": [3]},
              {"cls": "FullyConnectedLattice", "shape": [4]},
              {"cls": "IntegerLattice", "shape": [4], "pbc": [True]},
-             {"cls": "IntegerLattice", "shape": [5], "pbc": [False]}]
+             {"cls": "IntegerLattice", "shape": [5], "pbc": [False]},
+             {"cls": "CustomizedLattice", "shape": [3], "adj": [[0, 1, 1], [1, 0, 0], [1, 0, 0]]},
+             {"cls": "CustomizedLattice", "shape": [4], "adj": [[0, 1, 1, 0], [1, 0, 1, 0], [1, 1, 0, 1], [0, 0, 1, 0]]}]
     for b in bases:
         for nl in (1, 2, 3):
             specs.append({"cls": "LayeredLattice", "base": b, "nlayers": nl})
@@ -117,22 +123,40 @@ def kron_sites(L, ops):
     return m
 
 
+_SITE_OP = {}
+
+
+def site_op(L, i, p):
+    """P at site i, identity elsewhere (cached: the references are rebuilt for many couplings on the same sizes)"""
+    key = (L, i, p)
+    if key not in _SITE_OP:
+        _SITE_OP[key] = kron_sites(L, {i: PAULI[p]})
+    return _SITE_OP[key]
+
+
 def ref_spin(L, edges, pair_terms, site_terms):
     """sum_{(i,j) in edges} sum_{(w, P)} w P_i P_j + sum_i sum_{(w, P)} w P_i"""
     H = sparse.csr_matrix((2 ** L, 2 ** L), dtype=complex)
     for (i, j) in edges:
         for w, p in pair_terms:
-            H = H + w * kron_sites(L, {i: PAULI[p], j: PAULI[p]})
+            if w != 0:
+                H = H + w * (site_op(L, i, p) @ site_op(L, j, p))
     for i in range(L):
         for w, p in site_terms:
-            H = H + w * kron_sites(L, {i: PAULI[p]})
+            if w != 0:
+                H = H + w * site_op(L, i, p)
     return H
+
+
+_JW = {}
 
 
 def jw_ops(L):
     """c_i = I x ... x I x U x Z x ... x Z  (sign string on the later sites), a_i = c_i^dagger"""
-    cs = [kron_sites(L, dict([(i, UP)] + [(k, PAULI["Z"]) for k in range(i + 1, L)])) for i in range(L)]
-    return cs, [c.conj().T.tocsr() for c in cs]
+    if L not in _JW:
+        cs = [kron_sites(L, dict([(i, UP)] + [(k, PAULI["Z"]) for k in range(i + 1, L)])) for i in range(L)]
+        _JW[L] = (cs, [c.conj().T.tocsr() for c in cs])
+    return _JW[L]
 
 
 def ref_hubbard(L, base_adj, t, u, spin):
@@ -270,7 +294,10 @@ def hubbard_oracle(ctx, spec, adj, H, t, u, spin, desc, nmax):
     L = len(adj)
     if L > nmax:
         return None
-    base = np.asarray(adj)[:L // 2, :L // 2] if spin else adj
+    if spin and isinstance(spec, dict) and spec.get("cls") == "LayeredLattice":
+        base = np.asarray(make_lattice(spec["base"]).adjacency_matrix())      # "per spin layer": the base lattice itself
+    else:
+        base = np.asarray(adj)[:L // 2, :L // 2] if spin else adj
     M = H.as_matrix()
     R, N = ref_hubbard(L, base, t, u, spin)
     if maxdiff(M, R) > TOL:
@@ -294,15 +321,35 @@ def mol_expected_accept(c, tk, vi, herm, varch):
     return bool(ok)
 
 
-def molecular_oracle(ctx, L, c, tk, vi, herm, varch, desc):
-    """returns (H or None, matrix or None)"""
-    import qib
-    from qib.operator import MolecularHamiltonian, MolecularHamiltonianSymmetry as MS
+def molecular_symm(herm, varch):
+    from qib.operator import MolecularHamiltonianSymmetry as MS
     symm = MS(0)
     if herm:
         symm |= MS.HERMITIAN
     if varch:
         symm |= MS.VARCHANGE
+    return symm
+
+
+def molecular_check(ctx, H, L, c, tk, vi, herm, desc):
+    """an accepted molecular Hamiltonian: matrix = definition, flag = declared symmetry, flag sound"""
+    M = H.as_matrix()
+    R = ref_molecular(L, c, tk, vi)
+    if maxdiff(M, R) > TOL:
+        ctx.fail("molecular:matrix-not-definition", desc, "c + sum t a+a + 1/2 sum v a+_i a+_j a_l a_k",
+                 "max |diff| = %g" % maxdiff(M, R))
+    if H.is_hermitian() != bool(herm):
+        ctx.fail("molecular:is-hermitian-not-the-declared-symmetry", desc, bool(herm), H.is_hermitian())
+    if H.is_hermitian() and maxdiff(M, M.conj().T) > TOL:
+        ctx.fail("molecular:hermitian-flag-unsound", desc, "H = H^dagger", "max |diff| = %g" % maxdiff(M, M.conj().T))
+    return M
+
+
+def molecular_oracle(ctx, L, c, tk, vi, herm, varch, desc):
+    """returns (H or None, matrix or None)"""
+    import qib
+    from qib.operator import MolecularHamiltonian
+    symm = molecular_symm(herm, varch)
     field = qib.field.Field(qib.field.ParticleType.FERMION, qib.lattice.FullyConnectedLattice((L,)))
     want = mol_expected_accept(c, tk, vi, herm, varch)
     try:
@@ -314,16 +361,7 @@ def molecular_oracle(ctx, L, c, tk, vi, herm, varch, desc):
         ctx.fail("molecular:constructor-accepts-iff-symmetric", desc, want, acc)
     if H is None:
         return None, None
-    M = H.as_matrix()
-    R = ref_molecular(L, c, tk, vi)
-    if maxdiff(M, R) > TOL:
-        ctx.fail("molecular:matrix-not-definition", desc, "c + sum t a+a + 1/2 sum v a+_i a+_j a_l a_k",
-                 "max |diff| = %g" % maxdiff(M, R))
-    if H.is_hermitian() != bool(herm):
-        ctx.fail("molecular:is-hermitian-not-the-declared-symmetry", desc, bool(herm), H.is_hermitian())
-    if H.is_hermitian() and maxdiff(M, M.conj().T) > TOL:
-        ctx.fail("molecular:hermitian-flag-unsound", desc, "H = H^dagger", "max |diff| = %g" % maxdiff(M, M.conj().T))
-    return H, M
+    return H, molecular_check(ctx, H, L, c, tk, vi, herm, desc)
 
 
 def term_flags(ctx, kind, fop, L, desc, nmax):
@@ -345,6 +383,46 @@ def term_flags(ctx, kind, fop, L, desc, nmax):
     if whole is not None and not all(flags):
         ctx.fail(kind + ":operator-hermitian-flag-not-from-terms", desc, "NotImplementedError", whole)
     return flags
+
+
+# ------------------------------------------------------------------------------ correspondence cases
+def case_ising(L, adj, params, op, M, nmat):
+    return "CIsing %s %s %s %s %s %s %s %s" % (
+        ct.nat(L), adj_term(adj), qv(params["J"]), qv(params["h"]), qv(params["g"]), ct.b(params["conv"] == "ZZ"),
+        ops_term(op), opt_mat(M if (M is not None and L <= nmat) else None))
+
+
+def case_heis(L, adj, params, op, M, nmat):
+    return "CHeis %s %s %s %s %s %s" % (
+        ct.nat(L), adj_term(adj), ct.lst([qv(v) for v in params["J"]]), ct.lst([qv(v) for v in params["h"]]),
+        ops_term(op), opt_mat(M if (M is not None and L <= nmat) else None))
+
+
+def case_hub(L, adj, t, u, spin, fop, flags, M, nmat):
+    kin, inter = np.asarray(fop.terms[0].coeffs), np.asarray(fop.terms[1].coeffs)
+    nz = [ct.pair(ct.lst([ct.nat(i) for i in idx]), qv(inter[idx])) for idx in zip(*np.nonzero(inter))]
+    return "CHub %s %s %s %s %s %s %s %s %s" % (
+        ct.nat(L), adj_term(adj), qv(t), qv(u), ct.b(spin), qmat(kin), ct.lst(nz), ct.lst([ct.b(f) for f in flags]),
+        opt_mat(M if (M is not None and L <= nmat) else None))
+
+
+def case_mol(L, nsites, c, tk, vi, herm, varch, H, fop, flags, M, nmat=4):
+    if H is None:
+        res = "None"
+    else:
+        res = ct.opt(ct.pair(ct.b(H.is_hermitian()), qv(complex(fop.terms[0].coeffs)),
+                             qmat(fop.terms[1].coeffs), q4(fop.terms[2].coeffs), ct.lst([ct.b(f) for f in flags])))
+    return "CMol %s %s %s %s %s %s %s %s %s %s" % (
+        ct.nat(L), ct.nat(nsites), qv(c), ct.b(isinstance(c, (int, float))), qmat(tk), q4(vi), ct.b(herm), ct.b(varch),
+        res, opt_mat(M if (M is not None and L <= nmat) else None))
+
+
+HUB_PATS = [["FERMI_CREATE", "FERMI_ANNIHIL"], ["FERMI_CREATE", "FERMI_ANNIHIL"] * 2]
+MOL_PATS = [[], ["FERMI_CREATE", "FERMI_ANNIHIL"], ["FERMI_CREATE"] * 2 + ["FERMI_ANNIHIL"] * 2]
+
+
+def fop_patterns(fop):
+    return [[d.otype.name for d in tm.opdesc] for tm in fop.terms]
 
 
 # ------------------------------------------------------------------------------ builders
@@ -399,6 +477,450 @@ def rand_molecular(rng, L, herm, varch, style):
     return c, tk, vi
 
 
+# ------------------------------------------------------------------------------ histories
+# A Hamiltonian is a function of (lattice, parameters).  A history builds several Hamiltonians (same or
+# different classes) on ONE lattice object and calls their generators repeatedly; every result must equal
+# the result of the same call on freshly built objects, the definition (from the adjacency BEFORE the
+# history), and nothing the caller can see of the lattice / of the arrays the caller handed in may change.
+QUBIT_CALLS = ["as_pauli_operator", "as_matrix", "is_hermitian"]
+FERMI_CALLS = ["as_field_operator", "as_matrix", "is_hermitian"]
+
+
+def observe_lattice(latt):
+    """what a caller can observe of a lattice (public API only, so caching inside the object is allowed)"""
+    a = np.asarray(latt.adjacency_matrix())
+    d = {"cls": type(latt).__name__, "nsites": int(latt.nsites), "ndim": int(latt.ndim),
+         "shape": repr(getattr(latt, "shape", None)), "adj_dtype": str(a.dtype), "adj": a.tolist()}
+    try:
+        d["coords"] = [tuple(int(x) for x in np.ravel(latt.index_to_coord(i))) for i in range(latt.nsites)]
+    except Exception as e:
+        d["coords"] = type(e).__name__
+    if hasattr(latt, "base_lattice"):
+        d["nlayers"] = int(latt.nlayers)
+        d["base"] = observe_lattice(latt.base_lattice)
+    return d
+
+
+def first_diff(a, b, path=""):
+    if isinstance(a, dict) and isinstance(b, dict):
+        for k in a:
+            if a[k] != b.get(k):
+                return first_diff(a[k], b.get(k), path + "." + k)
+    return "%s: %r -> %r" % (path.lstrip("."), a, b)
+
+
+def copy_owned(owned):
+    return {k: (v.copy() if isinstance(v, np.ndarray) else list(v) if isinstance(v, list) else v) for k, v in owned.items()}
+
+
+def owned_changed(before, now):
+    for k, v in before.items():
+        w = now[k]
+        if isinstance(v, np.ndarray):
+            if not (isinstance(w, np.ndarray) and w.dtype == v.dtype and w.shape == v.shape and np.array_equal(v, w)):
+                return "%s: %r -> %r" % (k, v.tolist(), np.asarray(w).tolist())
+        elif v != w or type(v) is not type(w):
+            return "%s: %r -> %r" % (k, v, w)
+    return None
+
+
+def parse_c(txt):
+    c = complex(txt)
+    if "j" in txt:
+        return c
+    return float(txt) if "." in txt or "e" in txt else int(txt)
+
+
+def step_molecular_arrays(step):
+    L = len(step["tkin"])
+    tk = np.array([[complex(x) for x in r] for r in step["tkin"]], dtype=complex).reshape((L, L))
+    vi = np.array([complex(x) for x in step["vint"]], dtype=complex).reshape((L,) * 4)
+    return L, parse_c(step["c"]), tk, vi
+
+
+def make_ham(step, latt, fields):
+    """build the step's Hamiltonian on `latt`; fields caches the Field objects of a shared lattice.
+    Returns (H, owned) with owned = the mutable objects handed to the constructor."""
+    import qib
+    ham = step["ham"]
+    ptype = qib.field.ParticleType.QUBIT if ham in ("ising", "heisenberg") else qib.field.ParticleType.FERMION
+    key = (id(latt), ptype.name)
+    if key not in fields:
+        fields[key] = qib.field.Field(ptype, latt)
+    field = fields[key]
+    if ham == "ising":
+        conv = qib.operator.IsingConvention.ISING_ZZ if step["conv"] == "ZZ" else qib.operator.IsingConvention.ISING_XX
+        return qib.operator.IsingHamiltonian(field, step["J"], step["h"], step["g"], conv), {}
+    if ham == "heisenberg":
+        owned = {"J": list(step["J"]), "h": list(step["h"])}
+        return qib.operator.HeisenbergHamiltonian(field, owned["J"], owned["h"]), owned
+    if ham == "hubbard":
+        return qib.operator.FermiHubbardHamiltonian(field, step["t"], step["u"], spin=step["spin"]), {}
+    if ham == "molecular":
+        _, c, tk, vi = step_molecular_arrays(step)
+        owned = {"tkin": tk, "vint": vi}
+        return qib.operator.MolecularHamiltonian(field, c, tk, vi, molecular_symm(step["herm"], step["varch"])), owned
+    raise ValueError(ham)
+
+
+def canon(call, r):
+    if call == "is_hermitian":
+        return bool(r)
+    if call == "as_pauli_operator":
+        return [(tuple(int(v) for v in w.paulis.z), tuple(int(v) for v in w.paulis.x), int(w.paulis.q), complex(w.weight))
+                for w in r.pstrings]
+    if call == "as_field_operator":
+        return [([d.otype.name for d in tm.opdesc], np.array(tm.coeffs, copy=True)) for tm in r.terms]
+    if call == "as_matrix":
+        return sparse.csr_matrix(r).copy()
+    raise ValueError(call)
+
+
+def same_result(call, a, b):
+    if call == "as_matrix":
+        return a.shape == b.shape and maxdiff(a, b) == 0
+    if call == "as_field_operator":
+        return len(a) == len(b) and all(p == q and x.shape == y.shape and np.array_equal(x, y)
+                                        for (p, x), (q, y) in zip(a, b))
+    return a == b
+
+
+def show_result(call, r):
+    if call == "as_matrix":
+        return "matrix, nnz=%d, max|H - H^dagger| = %g" % (r.nnz, maxdiff(r, r.conj().T))
+    if call == "as_field_operator":
+        return [(p, x.tolist() if x.size <= 36 else [list(map(int, i)) + [complex(x[i])] for i in zip(*np.nonzero(x))][:12])
+                for p, x in r]
+    return repr(r)[:400]
+
+
+class _Sink:
+    """stands in for ctx inside the per-class oracles: collects (sig, expected, observed)"""
+
+    def __init__(self):
+        self.items = []
+
+    def fail(self, sig, input=None, expected=None, observed=None, how=None):
+        self.items.append((sig, expected, observed))
+
+
+def run_history(hist, nmax=8, collect=None, nmat_spin=4, nmat_fermi=5):
+    """Returns the list of failures [(sig, truncated history, expected, observed)], first occurrence per sig.
+    collect: optional list receiving (coq case term, description, nontrivial) for the correspondence, built from
+    the adjacency BEFORE the history and the implementation's outputs at each step."""
+    spec = hist["lattice"]
+    steps = hist["steps"]
+    fails = []
+
+    def flag(sig, k, c, expected, observed):
+        if any(f[0] == sig for f in fails):
+            return
+        st = [dict(x) for x in steps[:k + 1]]
+        st[-1]["calls"] = list(st[-1]["calls"][:c + 1])
+        fails.append((sig, {"kind": "history", "lattice": spec, "steps": st}, expected, observed))
+
+    def target(top, step):
+        return top.base_lattice if step.get("on") == "base" else top
+
+    keep = {}
+    top = make_lattice(spec, keep)
+    names = ["lattice"] + (["base"] if hasattr(top, "base_lattice") else [])
+    lat = {"lattice": top, "base": getattr(top, "base_lattice", None)}
+    obs = {n: observe_lattice(lat[n]) for n in names}
+    adj0 = {n: np.array(lat[n].adjacency_matrix()).astype(int) for n in names}
+    # arrays the caller holds: what went into the lattice constructor, what adjacency_matrix() handed out
+    held = dict(keep)
+    for n in names:
+        held["adjacency_matrix() of the " + n] = lat[n].adjacency_matrix()
+    state = {"obs": obs, "held0": copy_owned(held), "owned0": {}}
+
+    def frame(ham, k, c, what, owned):
+        """compared with the state just before this generation, so only the one that changes something is blamed"""
+        now = {n: observe_lattice(lat[n]) for n in names}
+        if now != state["obs"]:
+            flag("history:lattice-modified-by-%s" % ham, k, c, "lattice unchanged by " + what, first_diff(state["obs"], now))
+            state["obs"] = now
+        ch = owned_changed(state["held0"], held) or owned_changed(state["owned0"], owned)
+        if ch:
+            flag("history:caller-array-modified-by-%s" % ham, k, c, "caller-held arrays unchanged by " + what, ch)
+            state["held0"], state["owned0"] = copy_owned(held), copy_owned(owned)
+
+    fields = {}
+    for k, step in enumerate(steps):
+        ham, calls = step["ham"], step["calls"]
+        tname = "base" if step.get("on") == "base" else "lattice"
+        latt = lat[tname]
+        L = latt.nsites
+
+        def fresh():
+            return make_ham(step, target(make_lattice(spec), step), {})[0]
+        try:
+            H, owned = make_ham(step, latt, fields)
+            err = None
+        except ValueError as e:
+            H, owned, err = None, {}, e
+        try:
+            fresh()
+            ferr = None
+        except ValueError as e:
+            ferr = e
+        if (err is None) != (ferr is None):
+            flag("history:%s-constructor-outcome-depends-on-history" % ham, k, -1,
+                 "as on a fresh lattice object: %r" % (ferr,), repr(err))
+        if H is None:
+            continue
+        state["owned0"] = copy_owned(owned)
+        seen = {}
+        for c, call in enumerate(calls):
+            try:
+                r = canon(call, getattr(H, call)())
+            except NotImplementedError:
+                continue
+            frame(ham, k, c, "%s.%s()" % (ham, call), owned)
+            if call in seen and not same_result(call, seen[call], r):
+                flag("history:%s-repeated-call-differs" % ham, k, c, show_result(call, seen[call]), show_result(call, r))
+            seen.setdefault(call, r)
+            rf = canon(call, getattr(fresh(), call)())
+            if not same_result(call, rf, r):
+                flag("history:%s-result-differs-from-fresh-object" % ham, k, c,
+                     "%s() on freshly built lattice/field/Hamiltonian: %s" % (call, show_result(call, rf)), show_result(call, r))
+        # the definition, from the adjacency before the history (these generate once more)
+        sink = _Sink()
+        adj = adj0[tname]
+        M = fop = flags = op = None
+        if not adjacency_ok(adj):
+            continue
+        if ham in ("ising", "heisenberg"):
+            params = {x: step[x] for x in ("J", "h", "g", "conv") if x in step}
+            M = spin_oracle(sink, ham, spec, adj, H, params, None, nmax)
+            op = H.as_pauli_operator()
+        elif ham == "hubbard":
+            M = hubbard_oracle(sink, spec, adj, H, step["t"], step["u"], step["spin"], None, nmax)
+            fop = H.as_field_operator()
+            if fop_patterns(fop) != HUB_PATS:
+                sink.fail("hubbard:operator-pattern", None, "[c a], [c a c a]", fop_patterns(fop))
+                fop = None
+            else:
+                flags = term_flags(sink, "hubbard", fop, L, {}, nmax)
+        else:
+            _, cc, tk, vi = step_molecular_arrays(step)
+            M = molecular_check(sink, H, L, cc, tk, vi, step["herm"], None) if L <= nmax else None
+            fop = H.as_field_operator()
+            if fop_patterns(fop) != MOL_PATS:
+                sink.fail("molecular:operator-pattern", None, "[], [c a], [c c a a]", fop_patterns(fop))
+                fop = None
+            else:
+                flags = term_flags(sink, "molecular", fop, L, {}, 4)
+        frame(ham, k, len(calls) - 1, "one more generation of the %s Hamiltonian after the listed calls" % ham, owned)
+        for sig, e, o in sink.items:
+            flag(sig, k, len(calls) - 1, "after the listed calls, generated once more on the same objects: %s" % (e,), o)
+        if collect is not None:
+            desc = {"kind": "history", "lattice": spec, "steps": steps[:k + 1]}
+            nedges = len(edge_list(adj))
+            if ham == "ising":
+                collect.append((case_ising(L, adj, params, op, M, nmat_spin), desc, nedges > 0 and params["J"] != 0))
+            elif ham == "heisenberg":
+                collect.append((case_heis(L, adj, params, op, M, nmat_spin), desc, nedges > 0 and any(params["J"])))
+            elif ham == "hubbard" and fop is not None:
+                collect.append((case_hub(L, adj, step["t"], step["u"], step["spin"], fop, flags, M, nmat_fermi), desc,
+                                nedges > 0 and (step["t"] != 0 or step["u"] != 0)))
+            elif ham == "molecular" and fop is not None:
+                collect.append((case_mol(L, L, cc, tk, vi, step["herm"], step["varch"], H, fop, flags, M), desc,
+                                bool(np.any(vi != 0))))
+    return fails
+
+
+def shrink_history(hist, sig, nmax):
+    """greedy: drop steps / calls while the same signature is still produced"""
+    def still(h):
+        try:
+            return any(f[0] == sig for f in run_history(h, nmax))
+        except Exception:
+            return False
+    cur = hist
+    k = 0
+    while k < len(cur["steps"]) - 1:
+        cand = dict(cur, steps=cur["steps"][:k] + cur["steps"][k + 1:])
+        if still(cand):
+            cur = cand
+        else:
+            k += 1
+    for k in range(len(cur["steps"])):
+        c = 0
+        while c < len(cur["steps"][k]["calls"]) and len(cur["steps"][k]["calls"]) > 1:
+            st = [dict(x) for x in cur["steps"]]
+            st[k]["calls"] = st[k]["calls"][:c] + st[k]["calls"][c + 1:]
+            cand = dict(cur, steps=st)
+            if still(cand):
+                cur = cand
+            else:
+                c += 1
+    return cur
+
+
+def molecular_step(rng, L, calls):
+    herm, varch = rng.random() < 0.6, rng.random() < 0.5
+    c, tk, vi = rand_molecular(rng, L, herm, varch, "sym")
+    if herm and isinstance(c, complex):
+        c = c.real
+    return {"ham": "molecular", "c": repr(c), "tkin": [[repr(complex(x)) for x in r] for r in tk],
+            "vint": [repr(complex(x)) for x in vi.reshape(-1)], "herm": herm, "varch": varch, "calls": calls}
+
+
+def random_step(rng, L, layered2, has_base, nonzero=False):
+    def pick():
+        v = rng.choice(COUPLINGS)
+        return v if (v != 0 or not nonzero) else 1
+    kinds = ["ising", "heisenberg", "hubbard", "hubbard"] + (["molecular"] if L <= 3 else []) + (["hubbard2"] if layered2 else [])
+    ham = rng.choice(kinds)
+    pool = QUBIT_CALLS if ham in ("ising", "heisenberg") else FERMI_CALLS
+    calls = [rng.choice(pool[:2]) for _ in range(rng.choice([1, 2, 2, 3]))]
+    if rng.random() < 0.3:
+        calls.insert(rng.randrange(len(calls) + 1), "is_hermitian")
+    if ham == "ising":
+        st = {"ham": "ising", "J": pick(), "h": pick(), "g": pick(), "conv": rng.choice(["ZZ", "XX"]), "calls": calls}
+    elif ham == "heisenberg":
+        st = {"ham": "heisenberg", "J": [pick(), pick(), pick()], "h": [pick(), pick(), pick()], "calls": calls}
+    elif ham == "hubbard":
+        st = {"ham": "hubbard", "t": float(pick()), "u": float(pick()), "spin": False, "calls": calls}
+    elif ham == "hubbard2":
+        st = {"ham": "hubbard", "t": float(pick()), "u": float(pick()), "spin": True, "calls": calls}
+    else:
+        st = molecular_step(rng, L, calls)
+    if has_base and ham != "hubbard2" and ham != "molecular" and rng.random() < 0.4:
+        st["on"] = "base"
+    return st
+
+
+def history_catalogue(rng, thorough):
+    """one scripted parameter-scan history per lattice class (incl. periodic extent-2 axes, one site, no edges,
+    layered lattices sharing their base object) + random histories"""
+    reps = [{"cls": "IntegerLattice", "shape": [3], "pbc": [False]},
+            {"cls": "IntegerLattice", "shape": [2], "pbc": [True]},
+            {"cls": "IntegerLattice", "shape": [1], "pbc": [False]},
+            {"cls": "IntegerLattice", "shape": [2, 2], "pbc": [True, False]},
+            {"cls": "TriangularLattice", "shape": [2, 2], "pbc": [False, False]},
+            {"cls": "OddFaceCenteredLattice", "shape": [2, 2], "pbc": [False, False]},
+            {"cls": "HexagonalLattice", "shape": [1, 1], "convention": "COLS_SHIFTED_UP"},
+            {"cls": "BrickLattice", "shape": [1, 1], "delete": False, "convention": "ROWS_SHIFTED_LEFT"},
+            {"cls": "FullyConnectedLattice", "shape": [3]},
+            {"cls": "CustomizedLattice", "shape": [4], "adj": [[0, 1, 1, 0], [1, 0, 1, 0], [1, 1, 0, 1], [0, 0, 1, 0]]},
+            {"cls": "CustomizedLattice", "shape": [3], "adj": [[0, 0, 1], [0, 0, 1], [1, 1, 0]]},
+            {"cls": "CustomizedLattice", "shape": [2], "adj": [[0, 1], [1, 0]]},
+            {"cls": "CustomizedLattice", "shape": [3], "adj": [[0, 0, 0], [0, 0, 0], [0, 0, 0]]},
+            {"cls": "LayeredLattice", "nlayers": 2, "base": {"cls": "IntegerLattice", "shape": [2], "pbc": [False]}},
+            {"cls": "LayeredLattice", "nlayers": 2,
+             "base": {"cls": "CustomizedLattice", "shape": [3], "adj": [[0, 1, 1], [1, 0, 0], [1, 0, 0]]}},
+            {"cls": "LayeredLattice", "nlayers": 3, "base": {"cls": "CustomizedLattice", "shape": [2], "adj": [[0, 1], [1, 0]]}},
+            {"cls": "LayeredLattice", "nlayers": 1, "base": {"cls": "FullyConnectedLattice", "shape": [3]}}]
+    hists = []
+    for spec in reps:
+        latt = make_lattice(spec)
+        L = latt.nsites
+        layered = spec["cls"] == "LayeredLattice"
+        l2 = layered and spec["nlayers"] == 2
+        steps = [{"ham": "hubbard", "t": 1.0, "u": 2.0, "spin": False, "calls": ["as_matrix", "as_field_operator", "as_matrix"]},
+                 {"ham": "ising", "J": -1.5, "h": 0.5, "g": 2, "conv": "ZZ", "calls": ["as_pauli_operator", "as_matrix"]},
+                 {"ham": "hubbard", "t": 0.5, "u": -3.0, "spin": False, "calls": ["is_hermitian", "as_field_operator"]},
+                 {"ham": "heisenberg", "J": [1, 0, -0.75], "h": [0.25, 2, 0], "calls": ["as_matrix", "as_pauli_operator", "as_matrix"]},
+                 {"ham": "ising", "J": 2, "h": 0, "g": -0.75, "conv": "XX", "calls": ["as_matrix"]}]
+        if L <= (4 if thorough else 3):
+            steps.append(molecular_step(rng, L, ["as_field_operator", "as_matrix", "as_matrix"]))
+        if l2:
+            steps.append({"ham": "hubbard", "t": 2.0, "u": 0.625, "spin": True, "calls": ["as_matrix", "as_field_operator"]})
+        if layered:
+            steps.append({"ham": "hubbard", "t": -1.0, "u": 4.0, "spin": False, "on": "base", "calls": ["as_matrix", "as_matrix"]})
+            steps.append({"ham": "heisenberg", "J": [0.5, 0.5, 2], "h": [0, 0, -1], "on": "base", "calls": ["as_pauli_operator"]})
+        if l2:
+            steps.append({"ham": "hubbard", "t": -1.5, "u": -0.75, "spin": True, "calls": ["as_field_operator", "as_matrix"]})
+        steps.append({"ham": "hubbard", "t": 0.25, "u": 1.0, "spin": False, "calls": ["as_matrix"]})
+        hists.append({"kind": "history", "lattice": spec, "steps": steps})
+    pool = [s for s in catalogue(rng, False)]
+    nrand = 40 if thorough else 14
+    tries = 0
+    while nrand and tries < 400:
+        tries += 1
+        spec = rng.choice(pool)
+        try:
+            latt = make_lattice(spec)
+            if latt.nsites > (7 if thorough else 6) or not adjacency_ok(latt.adjacency_matrix()):
+                continue
+        except Exception:
+            continue
+        layered = spec["cls"] == "LayeredLattice"
+        steps = [random_step(rng, latt.nsites, layered and spec["nlayers"] == 2, layered, nonzero=(i == 0))
+                 for i in range(rng.choice([2, 3, 3, 4]))]
+        hists.append({"kind": "history", "lattice": spec, "steps": steps})
+        nrand -= 1
+    return hists
+
+
+# ------------------------------------------------------------------------------ parameter-type probes
+# "real couplings" is enforced by the constructors (isinstance checks).  A coupling of an unusual type is either
+# refused, or the Hamiltonian built from it is the definition and is Hermitian if it says so.
+PROBE_VALUES = {"complex": 1 + 0.5j, "complex_zero_imag": 2 + 0j, "np.complex128": np.complex128(0.5 - 1j),
+                "np.float64": np.float64(0.5), "np.float32": np.float32(-0.75), "np.int64": np.int64(2),
+                "int": 2, "bool": True, "negative_zero": -0.0}
+PROBE_SLOTS = {"ising": ["J", "h", "g"], "heisenberg": ["J0", "J2", "h1"], "hubbard": ["t", "u"], "hubbard2": ["t", "u"]}
+PROBE_LATTICES = [{"cls": "IntegerLattice", "shape": [3], "pbc": [False]},
+                  {"cls": "CustomizedLattice", "shape": [4], "adj": [[0, 1, 1, 0], [1, 0, 1, 0], [1, 1, 0, 1], [0, 0, 1, 0]]},
+                  {"cls": "LayeredLattice", "nlayers": 2, "base": {"cls": "IntegerLattice", "shape": [2], "pbc": [False]}}]
+
+
+def plain(v):
+    return complex(v) if isinstance(v, (complex, np.complexfloating)) else float(v)
+
+
+def run_probe(ctx, desc):
+    """returns 'accepted' / 'refused'"""
+    import qib
+    ham, slot, v = desc["ham"], desc["slot"], PROBE_VALUES[desc["ptype"]]
+    spec = desc["lattice"]
+    latt = make_lattice(spec)
+    adj = np.asarray(latt.adjacency_matrix())
+    try:
+        if ham == "ising":
+            raw = {"J": 1.5, "h": -0.5, "g": 0.25, "conv": desc["conv"]}
+            raw[slot] = v
+            _, H = build_spin("ising", spec, raw)
+            ref = {k: (plain(x) if k != "conv" else x) for k, x in raw.items()}
+        elif ham == "heisenberg":
+            raw = {"J": [1.5, -0.5, 2.0], "h": [0.25, 1.0, -3.0]}
+            raw[slot[0]][int(slot[1])] = v
+            _, H = build_spin("heisenberg", spec, raw)
+            ref = {k: [plain(x) for x in raw[k]] for k in raw}
+        else:
+            raw = {"t": 1.5, "u": -0.5}
+            raw[slot] = v
+            _, H = build_hubbard(spec, raw["t"], raw["u"], ham == "hubbard2")
+            ref = {k: plain(x) for k, x in raw.items()}
+    except (ValueError, TypeError):
+        return "refused"
+    if ham in ("ising", "heisenberg"):
+        spin_oracle(ctx, ham, spec, adj, H, ref, desc, 8)
+    else:
+        hubbard_oracle(ctx, spec, adj, H, ref["t"], ref["u"], ham == "hubbard2", desc, 8)
+    return "accepted"
+
+
+def type_probes(ctx):
+    for spec in PROBE_LATTICES:
+        for ham, slots in PROBE_SLOTS.items():
+            if ham == "hubbard2" and spec["cls"] != "LayeredLattice":
+                continue
+            for slot in slots:
+                for ptype in PROBE_VALUES:
+                    desc = {"kind": "probe", "ham": ham, "lattice": spec, "slot": slot, "ptype": ptype}
+                    if ham == "ising":
+                        desc["conv"] = "XX" if slot == "h" else "ZZ"
+                    try:
+                        res = run_probe(ctx, desc)
+                    except Exception as e:
+                        ctx.fail("%s:exception" % ham.rstrip("2"), desc, "refusal or a Hamiltonian", repr(e))
+                        continue
+                    ctx.count("probe_%s_%s_%s" % (ham.rstrip("2"), ptype, res))
+
+
 # ------------------------------------------------------------------------------ run
 
 def run(ctx):
@@ -423,6 +945,16 @@ def run(ctx):
                      "Model matrices compared for <= %d sites, numpy oracle for <= %d sites. "
                      "non-trivial = lattice with at least one edge and a non-zero coupling (molecular: a non-zero two-body tensor)"
                      % (nmat_coq + 1, nmat_np))
+    ctx.rules.append("parameter-type probes: each coupling slot of Ising/Heisenberg/Hubbard in turn receives a complex, "
+                     "numpy-scalar, int, bool value: refused, or accepted and then checked like every other input "
+                     "(definition, Hermitian if it says so)")
+    ctx.rules.append("histories: one scripted parameter scan per lattice class (Hubbard x3, Ising ZZ/XX, Heisenberg, molecular, "
+                     "spinful Hubbard and Hamiltonians on the shared base object of layered lattices) + random histories of 2-4 "
+                     "Hamiltonians, all on ONE lattice object with repeated as_pauli_operator/as_field_operator/as_matrix calls; "
+                     "after every call: observable lattice state and all caller-held arrays (CustomizedLattice adj, arrays returned "
+                     "by adjacency_matrix(), J/h lists, tkin/vint) unchanged, result = result on freshly built objects = earlier "
+                     "result of the same call, and = the definition from the adjacency before the history; every step is also a "
+                     "correspondence case (model applied to the adjacency BEFORE the history)")
     ctx.lib(["Hamil/HamilCheck", "Hamil/HamilProofs2"])
     if ctx.translate("GenHamil", gen_hamil.generate):
         ctx.props()
@@ -472,10 +1004,7 @@ def run(ctx):
                 except Exception as e:
                     ctx.fail("ising:exception", desc, "a Hamiltonian", repr(e))
                     continue
-                add("CIsing %s %s %s %s %s %s %s %s" % (
-                    ct.nat(L), adj_term(adj), qv(params["J"]), qv(params["h"]), qv(params["g"]), ct.b(conv == "ZZ"),
-                    ops_term(op), opt_mat(M if (M is not None and L <= nmat_coq) else None)),
-                    desc, nedges > 0 and params["J"] != 0)
+                add(case_ising(L, adj, params, op, M, nmat_coq), desc, nedges > 0 and params["J"] != 0)
             # -------------------------------------------------------- Heisenberg
             for rep in range(2 if (L <= 4 or ctx.thorough) else 1):
                 params = {"J": [pick(), pick(), pick()], "h": [pick(), pick(), pick()]}
@@ -489,10 +1018,7 @@ def run(ctx):
                 except Exception as e:
                     ctx.fail("heisenberg:exception", desc, "a Hamiltonian", repr(e))
                     continue
-                add("CHeis %s %s %s %s %s %s" % (
-                    ct.nat(L), adj_term(adj), ct.lst([qv(v) for v in params["J"]]), ct.lst([qv(v) for v in params["h"]]),
-                    ops_term(op), opt_mat(M if (M is not None and L <= nmat_coq) else None)),
-                    desc, nedges > 0 and any(params["J"]))
+                add(case_heis(L, adj, params, op, M, nmat_coq), desc, nedges > 0 and any(params["J"]))
 
         # ------------------------------------------------------------ Fermi-Hubbard
         is_layered = spec["cls"] == "LayeredLattice"
@@ -520,20 +1046,16 @@ def run(ctx):
             try:
                 M = hubbard_oracle(ctx, spec, adj, H, t, u, spin, desc, nmat_np)
                 fop = H.as_field_operator()
-                kin, inter = np.asarray(fop.terms[0].coeffs), np.asarray(fop.terms[1].coeffs)
                 flags = term_flags(ctx, "hubbard", fop, L, desc, nmat_np)
-                pats = [[d.otype.name for d in tm.opdesc] for tm in fop.terms]
+                pats = fop_patterns(fop)
             except Exception as e:
                 ctx.fail("hubbard:exception", desc, "a field operator", repr(e))
                 continue
-            if pats != [["FERMI_CREATE", "FERMI_ANNIHIL"], ["FERMI_CREATE", "FERMI_ANNIHIL"] * 2] or len(fop.terms) != 2:
+            if pats != HUB_PATS:
                 ctx.fail("hubbard:operator-pattern", desc, "[c a], [c a c a]", pats)
-            nz = [ct.pair(ct.lst([ct.nat(i) for i in idx]), qv(inter[idx])) for idx in zip(*np.nonzero(inter))]
+                continue
             ctx.count("hubbard_%s" % ("spinful" if spin else "spinless"))
-            add("CHub %s %s %s %s %s %s %s %s %s" % (
-                ct.nat(L), adj_term(adj), qv(t), qv(u), ct.b(spin), qmat(kin), ct.lst(nz), ct.lst([ct.b(f) for f in flags]),
-                opt_mat(M if (M is not None and L <= nmat_coq + 1) else None)),
-                desc, nedges > 0 and (t != 0 or u != 0))
+            add(case_hub(L, adj, t, u, spin, fop, flags, M, nmat_coq + 1), desc, nedges > 0 and (t != 0 or u != 0))
         # spin=True on a lattice that is not layered must be refused
         if not is_layered and L <= 4:
             desc = {"kind": "hubbard", "lattice": spec, "t": 1.0, "u": 1.0, "spin": True}
@@ -559,20 +1081,15 @@ def run(ctx):
             ctx.fail("molecular:exception", desc, "accept or ValueError", repr(e))
             continue
         ctx.count("molecular_%s_%s" % (style, "accepted" if H is not None else "refused"))
-        if H is None:
-            res = "None"
-        else:
+        fop = flags = None
+        if H is not None:
             fop = H.as_field_operator()
-            pats = [[d.otype.name for d in tm.opdesc] for tm in fop.terms]
-            if pats != [[], ["FERMI_CREATE", "FERMI_ANNIHIL"], ["FERMI_CREATE"] * 2 + ["FERMI_ANNIHIL"] * 2]:
+            pats = fop_patterns(fop)
+            if pats != MOL_PATS:
                 ctx.fail("molecular:operator-pattern", desc, "[], [c a], [c c a a]", pats)
+                continue
             flags = term_flags(ctx, "molecular", fop, L, desc, 4)
-            res = ct.opt(ct.pair(ct.b(H.is_hermitian()), qv(complex(fop.terms[0].coeffs)),
-                                 qmat(fop.terms[1].coeffs), q4(fop.terms[2].coeffs), ct.lst([ct.b(f) for f in flags])))
-        add("CMol %s %s %s %s %s %s %s %s %s %s" % (
-            ct.nat(L), ct.nat(L), qv(c), ct.b(isinstance(c, (int, float))), qmat(tk), q4(vi), ct.b(herm), ct.b(varch),
-            res, opt_mat(M if (M is not None and L <= 4) else None)),
-            desc, bool(np.any(vi != 0)))
+        add(case_mol(L, L, c, tk, vi, herm, varch, H, fop, flags, M), desc, bool(np.any(vi != 0)))
     # lattice size mismatch is refused
     try:
         field = qib.field.Field(qib.field.ParticleType.FERMION, qib.lattice.FullyConnectedLattice((3,)))
@@ -584,7 +1101,35 @@ def run(ctx):
         add("CMol %s %s %s true %s %s false false None None" % (ct.nat(2), ct.nat(3), qv(0), z2, q4(np.zeros((2,) * 4))),
             {"kind": "molecular-size"}, False)
 
+    type_probes(ctx)
     ctx.log('molecular done, %d cases' % len(cases))
+    # ---------------------------------------------------------------- histories on one lattice object
+    for hist in history_catalogue(rng, ctx.thorough):
+        col = []
+        short = {"kind": "history", "lattice": hist["lattice"],
+                 "steps": [{k: v for k, v in st.items() if k not in ("tkin", "vint")} for st in hist["steps"]]}
+        try:
+            fails = run_history(hist, nmat_np, col, nmat_coq - 1, nmat_coq)
+        except Exception as e:
+            ctx.fail("history:exception", hist, "every generation succeeds", repr(e))
+            continue
+        for sig, h, e, o in fails:
+            if not any(f["sig"] == sig for f in ctx.failing):
+                h2 = shrink_history(h, sig, nmat_np)
+                again = [f for f in run_history(h2, nmat_np) if f[0] == sig]
+                if again:
+                    _, h, e, o = again[0]
+            ctx.fail(sig, h, e, o)
+        ctx.count("history_lattice_" + hist["lattice"]["cls"])
+        for st in hist["steps"]:
+            ctx.count("history_step_%s%s" % (st["ham"], "_on_shared_base" if st.get("on") == "base" else ""))
+            ctx.count("history_generations", len(st["calls"]))
+        for k, (term, desc, nt) in enumerate(col):
+            cases.append((term, dict(short, steps=short["steps"][:len(desc["steps"])])))
+            if nt:
+                ctx.nontriv(cases[-1][1])
+    ctx.sample(short)
+    ctx.log('histories done, %d cases' % len(cases))
     dis = ctx.cases("hamil", HEADER, cases, shard=40)
     ctx.log('model evaluation done')
     for i, d in dis[:5]:
@@ -623,6 +1168,12 @@ def replay(ctx, data):
         tk = np.array([[complex(x) for x in r] for r in inp["tkin"]], dtype=complex).reshape((L, L))
         vi = np.array([complex(x) for x in inp["vint"]], dtype=complex).reshape((L,) * 4)
         molecular_oracle(ctx, L, c, tk, vi, inp["herm"], inp["varch"], inp)
+    elif kind == "probe":
+        run_probe(ctx, inp)
+    elif kind == "history":
+        for s_, h, e, o in run_history(inp, 10):
+            if s_ == sig:
+                ctx.fail(s_, h, e, o)
     # a replay reports under the recorded signature
     if len(ctx.failing) > before:
         ctx.failing[before:] = [dict(ctx.failing[before], sig=sig)]
